@@ -254,6 +254,64 @@ def getitem_cached(c, batch_rank, kinds):
     prove_rep_invariant(c, c.last, "getitem")
 
 
+# ------------------------------------------------------------------------------ the cached factor is the Cholesky factor -----
+@case("C10", clause="scale_tril", name="scale_tril_is_the_cholesky_factor", expand=lambda ix: [(br, rooted) for br in (0, 1) for rooted in (False, True)],
+      replay=lambda *a: replay_scale_tril(*a), functions=[F("_unbroadcasted_scale_tril")])
+def scale_tril_is_cholesky(c, br, rooted):
+    """the factor a lazy MultivariateNormal computes on first use and caches (read by the Cholesky path of log_prob, scale_tril, entropy,
+    precision_matrix) is the lower-triangular Cholesky factor of its covariance -- also when the covariance is *represented* by a non-triangular
+    root R (rooted=True: root_decomposition() hands out R itself, of which only R R^T = covariance is known); the second read returns the cached one"""
+    it, ctx = c.it, c.ctx
+    n, b = c.size("n"), c.size("b")
+    bs = [b.t] if br else []
+    d = make_mvn(c, "d", bs, n.t)
+    cov = d.fields["_covar"]
+    if rooted:
+        cov.meta["given_root"] = sym_tensor("R", bs + [n.t, n.t])
+    res = c.getattr(d, "_unbroadcasted_scale_tril")
+    idx = fresh_in_range(c, bs + [n.t, n.t], "i")
+    bi, i_, j_ = idx[:-2], idx[-2], idx[-1]
+    mi, mj = z3.Int("mi!"), z3.Int("mj!")
+    M = z3.Lambda([mi], z3.Lambda([mj], cov.at(bi + [mi, mj])))
+    c.prove("scale_tril.rank", z3.BoolVal(hasattr(res, "dims") and len(res.dims) == br + 2))
+    if not hasattr(res, "dims"):
+        return
+    c.prove("scale_tril.is_the_lower_cholesky_factor_of_the_covariance", res.at_dims(bi + [i_, j_]) == z3.If(j_ <= i_, CHOL(M, n.t, i_, j_), z3.RealVal(0)))
+    again = c.getattr(d, "_unbroadcasted_scale_tril")
+    c.prove("scale_tril.second_read_returns_the_cached_factor", z3.BoolVal(again is res or again is d.fields.get("_MultivariateNormal__unbroadcasted_scale_tril")))
+    c.prove("scale_tril.cached_factor_unchanged", again.at_dims(bi + [i_, j_]) == res.at_dims(bi + [i_, j_]))
+
+
+def replay_scale_tril(model, params, clause, info):
+    """real code: covariance given densely / as RootLinearOperator of a random non-triangular root; the cached factor must be lower triangular with
+    L L^T = covariance and the Cholesky-path log_prob must equal torch's dense Gaussian log density"""
+    import torch
+    import gpytorch
+    from linear_operator.operators import RootLinearOperator
+    from linear_operator import to_linear_operator
+    torch.manual_seed(0)
+    br, rooted = int(params[0]), bool(params[1])
+    bs = (2,) if br else ()
+    bad = []
+    for n in (1, 3, 4):
+        R = torch.randn(*bs, n, n, dtype=torch.float64) + 2 * torch.eye(n, dtype=torch.float64)
+        S = R @ R.transpose(-1, -2)
+        mean = torch.randn(*bs, n, dtype=torch.float64)
+        d = gpytorch.distributions.MultivariateNormal(mean, RootLinearOperator(R) if rooted else to_linear_operator(S))
+        L = d._unbroadcasted_scale_tril
+        e1 = (L - L.tril()).abs().max().item()
+        e2 = (L @ L.transpose(-1, -2) - S).abs().max().item()
+        x = torch.randn(*bs, n, dtype=torch.float64)
+        with gpytorch.settings.fast_computations(log_prob=False):
+            lp = d.log_prob(x)
+        ref = torch.distributions.MultivariateNormal(mean, covariance_matrix=S).log_prob(x)
+        e3 = (lp - ref).abs().max().item()
+        if not (max(e1, e2, e3) < 1e-8):
+            bad.append(f"n={n}: above-diagonal mass {e1:.3g}, |L L^T - S| {e2:.3g}, Cholesky-path log_prob off by {e3:.3g}")
+    return {"violates": bool(bad), "detail": "; ".join(bad) or "real cached factor is the lower Cholesky factor; Cholesky-path log_prob equals the dense log density",
+            "entry": {"module": "contracts.C10_mvn", "function": "replay_scale_tril", "args": [model, list(params), clause, info]}}
+
+
 # ------------------------------------------------------------------------------ KL ------------------------
 @case("C10", clause="kl", expand=lambda ix: [(0,), (1,)], replay=lambda *a: replay_kl(*a), functions=["gpytorch.distributions.multivariate_normal.kl_mvn_mvn"])
 def kl(c, br):
